@@ -20,14 +20,22 @@ RULE = ("(encoder level, exhaustive) for eco-mode v1 and v2 groups x every prior
 ASSUMPTIONS = ["v1 groups carry no SoC and encode_discharge takes none: SoC is asserted for v2 ECO_CHARGE only",
                "a limit whose encoding is the all-ones 'no value' sentinel (65535) is outside the readable domain",
                "a setter that raises (e.g. ES with undecodable prior eco registers) has not 'succeeded': nothing is asserted then"]
-MUST = ["single_sensor_reads_before_setters", "roundtrips_in_each_mode", "background_poller_during_setters", "same_mode_repeated", "setter_with_refused_write", "polls_between_setters", "encoder_roundtrips", "mode_roundtrips", "eco_charge_checked", "eco_discharge_checked", "groups_off_checked",
+MUST = ["eco_group_type_checked", "prior_group_fulltime_but_off", "prior_group_typed_with_undecodable_tail", "single_sensor_reads_before_setters", "roundtrips_in_each_mode", "background_poller_during_setters", "same_mode_repeated", "setter_with_refused_write", "polls_between_setters", "encoder_roundtrips", "mode_roundtrips", "eco_charge_checked", "eco_discharge_checked", "groups_off_checked",
         "export_limit_roundtrips", "dod_roundtrips", "prior_nonempty_types", "es_modes", "et_745", "et_v1"]
 EXHAUSTIVE = {"quick": False, "thorough": False}
 
 ONOFF_V2 = [0, 1, 2, 3, 4, 5, 6, 0xFF, 0xFE, 0xFD, 0xFC, 0xFB, 0xFA, 0xF9, 85, 0x40, 0x99]
 
 
-def prior_v2(rnd, onoff, fulltime=False):
+def prior_v2(rnd, onoff, fulltime=False, bad_tail=False):
+    if bad_tail:
+        # a group of the given type whose fields AFTER the on/off byte cannot be interpreted (SoC 200 %, month mask beyond December)
+        b = bytearray(prior_v2(rnd, onoff, fulltime))
+        if rnd.random() < 0.6:
+            b[8:10] = rnd.choice((101, 200, 0x7FFF)).to_bytes(2, "big")
+        else:
+            b[10:12] = rnd.choice((0x1000, 0xFFFF, 0x8001)).to_bytes(2, "big")
+        return bytes(b)
     if fulltime:
         head = bytes([0, 0, 23, 59])
     else:
@@ -127,7 +135,7 @@ def e2e_part(spec, part):
             sim = models.es_sim(fw={"v2": b"2225F", "v1arm": b"1414E"}.get(variant, b"02525"))
             v2 = variant == "v2"
         # prior contents of the four groups
-        prior_cls = rnd.choice(("fulltime-on", "typed", "typed", "garbage", "off", "typed-on"))
+        prior_cls = rnd.choice(("fulltime-on", "typed", "typed", "garbage", "off", "typed-on", "typed-bad-tail", "fulltime-off"))
         bases = (47547, 47553, 47559, 47565) if v2 else ((47515, 47519, 47523, 47527) if fam == "ET" else (1793, 1797, 1801, 1805))
         for gi, base in enumerate(bases):
             if v2:
@@ -135,12 +143,19 @@ def e2e_part(spec, part):
                     b = bytes(rnd.randrange(256) for _ in range(12))
                 elif prior_cls == "fulltime-on" and gi == 0:
                     b = prior_v2(rnd, rnd.choice((0xFF, 0xF9)), True)
+                elif prior_cls == "typed-bad-tail" and gi == 0:
+                    b = prior_v2(rnd, rnd.choice(ONOFF_V2[:14]), rnd.random() < 0.5, bad_tail=True)
+                    part.count("prior_group_typed_with_undecodable_tail")
+                elif prior_cls == "fulltime-off" and gi == 0:
+                    # the all-day / all-week pattern, but switched OFF - with each of the 'off' values the firmware generations use
+                    b = prior_v2(rnd, rnd.choice((0, 6, 85, 1, 3)), True)
+                    part.count("prior_group_fulltime_but_off")
                 elif prior_cls == "off":
                     b = prior_v2(rnd, rnd.choice((0, 6, 85)))
                 else:
                     b = prior_v2(rnd, rnd.choice(ONOFF_V2[:14]) if gi == 0 else rnd.choice((0xFF, 0xF9, 0xFC, 0xFE)))
             else:
-                b = prior_v1(rnd, on=(prior_cls != "off"), fulltime=(prior_cls == "fulltime-on" and gi == 0),
+                b = prior_v1(rnd, on=(prior_cls not in ("off", "fulltime-off")), fulltime=(prior_cls in ("fulltime-on", "fulltime-off") and gi == 0),
                              garbage=(prior_cls == "garbage" and gi == 0))
             if fam == "ES" and not v2:
                 for i in range(4):
@@ -208,7 +223,7 @@ def e2e_part(spec, part):
                 except ValueError as e:
                     # group 1 still holds the undecodable prior content (outside 'all schedule types'): documented ValueError
                     steps.append((m.name, "get-raised:ValueError"))
-                    if prior_cls == "garbage" and not state["g1_written"]:
+                    if prior_cls in ("garbage", "typed-bad-tail") and not state["g1_written"]:
                         part.count("getter_valueerror_on_garbage_group")
                         continue
                     part.violate(f"C19/{fam}/getter-raises", f"{tagtxt}: get_operation_mode() after set_operation_mode({m.name}) raised ValueError: {e}", case)
@@ -255,6 +270,16 @@ def e2e_part(spec, part):
                     part.count("eco_charge_checked" if m == OM.ECO_CHARGE else "eco_discharge_checked")
                     if g1.get_power() != want_p:
                         part.violate(f"C19/{fam}/eco-group-power/{m.name}", f"{tagtxt}: {m.name} power {p}: group 1 decodes to {g1.get_power()}{g1.get_power_unit()} ({g1})", case)
+                    if v2:
+                        # the group is an ECO-MODE group: its on/off byte is 'on' for one of the two eco-mode schedule types (type 0 -> 0xFF,
+                        # 745-platform type 6 -> 0xF9; the library deliberately keeps whichever of the two it finds in the registers),
+                        # never 'on' for the dry-contact / peak-shaving / backup / smart-charge type the registers held before
+                        raw_onoff = sim.get(bases[0] + 2) >> 8
+                        part.count("eco_group_type_checked")
+                        if raw_onoff not in (0xFF, 0xF9):
+                            part.violate(f"C19/{fam}/eco-group-type/{m.name}",
+                                         f"{tagtxt}: after {m.name} group 1 carries on/off byte 0x{raw_onoff:02x} (schedule type {255 - raw_onoff}), which is not an "
+                                         f"eco-mode type (0xff / 0xf9) ({g1})", case)
                     if v2 and m == OM.ECO_CHARGE and g1.soc != s_:
                         part.violate(f"C19/{fam}/eco-group-soc", f"{tagtxt}: ECO_CHARGE soc {s_}: group 1 decodes to SoC {g1.soc}", case)
                     for k in (2, 3, 4):
